@@ -10,7 +10,8 @@ import itertools
 import json
 from collections import Counter
 
-from harness.core import fl, nl, bl, ll, pl
+from harness.core import fl, nl, bl, ll, pl, translated_specs
+TRANSLATED = translated_specs("DoeGen")      # doe.fullfact, ff2n: regenerated from the source on every run (numpy front-end, notes/TRANSLATOR.md)
 
 PROP = "C13"
 THEOREMS = {"Artap.Props.C13": [
